@@ -22,8 +22,25 @@ Contract.  Spec function: the uncached compilation
 (K2, 2-safety on the key)  key(a) == key(b)  =>  fresh(a).string == fresh(b).string and equal bind types, for all
     pairs of the scope (checked per equal-key group, every member against the first).
 
-Scope: shared statement corpus (rtc/corpus.py) without DDL (DDL is never cached) + mechanical single-site
-near-collision variants of a sub-corpus, on the six dialect families.
+(K3, end to end on a real backend)  the statements of scope (2) that need no table are *executed* on SQLite (pysqlite,
+    in memory): the same sequence of statements through an engine with the default compiled cache and through an engine
+    with query_cache_size=0; at every step the SQL text and parameters handed to the cursor and the fetched rows
+    (Python type and repr of every value, i.e. after the result processors) are equal, or both raise the same
+    exception type.  Every near-collision family runs forward and backward, each with an empty cache, so that every
+    member both populates the cache and hits an entry populated by each sibling kind.
+
+Scope
+ (1) shared statement corpus (rtc/corpus.py) without DDL (DDL is never cached) + mechanical single-site
+     near-collision variants of a sub-corpus, on the six dialect families.
+ (2) datatype-argument near-collisions: every TypeEngine subclass exported by sqlalchemy.types and by the five dialect
+     packages (found mechanically) x every constructor parameter that takes part in the type's cache key
+     (util.get_cls_kwargs, the set TypeEngine._static_cache_key iterates) and has an integer / string / boolean domain
+     (from its annotation, its default, or the name table below; the parameters left out are listed in
+     coverage.type_args.params_not_varied) x the values {None, falsy-but-meaningful (0, "", False), truthy (1, 5, "C",
+     True)} x two contexts (all other parameters at their defaults / all other parameters truthy), placed at the sites
+     cast(), type_coerce() of a numeric and of a string literal (result processors), bindparam(type_=) (bind
+     processors)  [thorough: + column(name, type), literal(value, type)].  These statements go through K1/K2 on the
+     six dialect families with the rest, and through K3.
 """
 import hashlib
 import itertools
@@ -51,6 +68,133 @@ def scope_descs(tier, seed):
     else:
         vsrc = [d for d in C.corpus(2, seed) if d.get("k") != "ddl"]
     return base, C._dedup(vsrc)
+
+
+# ------------------------------------------------------------------------------------------------ scope (2): datatype arguments
+TYPE_PACKAGES = ("", "mysql", "postgresql", "sqlite", "mssql", "oracle")
+# domains of parameters that carry neither an annotation nor a typed default (dialect types mostly)
+INT_PARAMS = {"length", "precision", "scale", "display_width", "fsp", "dimensions", "day_precision", "second_precision", "binary_precision", "decimal_return_scale", "dim"}
+STR_PARAMS = {"collation", "collation_schema", "charset", "name", "fields", "storage_format", "regexp"}
+BOOL_PARAMS = {"timezone", "asdecimal", "unsigned", "zerofill", "ascii", "binary", "unicode", "national", "varying", "filestream", "convert_int", "local_timezone", "truncate_microseconds"}
+DOMAINS = {"int": [None, 0, 1, 5], "str": [None, "", "C"], "bool": [None, False, True]}
+TRUTHY = {"int": 5, "str": "C", "bool": True}
+REQUIRED_ARGS = {"Enum": ["r", "g"], "mysql.ENUM": ["r", "g"], "mysql.SET": ["r", "g"], "postgresql.ENUM": ["r", "g", {"name": "e"}], "ARRAY": [["Integer"]], "postgresql.ARRAY": [["Integer"]],
+                 "postgresql.DOMAIN": ["dom", ["Integer"]], "TupleType": [["Integer"], ["String"]]}
+NOT_TYPES = {"TypeEngine", "TypeDecorator", "UserDefinedType", "Variant", "NullType", "PickleType", "postgresql.NamedType", "Concatenable", "Indexable", "MatchType", "_Binary"}
+_TCAT = None
+
+
+def _param_info(cls):
+    """{parameter name: (default, annotation text)} from the first __init__ in the MRO that declares it"""
+    import inspect
+    out = {}
+    for c in cls.__mro__:
+        init = c.__dict__.get("__init__")
+        if init is None:
+            continue
+        try:
+            sig = inspect.signature(init)
+        except (TypeError, ValueError):
+            continue
+        for pr in list(sig.parameters.values())[1:]:
+            if pr.kind in (pr.VAR_POSITIONAL, pr.VAR_KEYWORD) or pr.name in out:
+                continue
+            out[pr.name] = (None if pr.default is inspect.Parameter.empty else pr.default, "" if pr.annotation is inspect.Parameter.empty else str(pr.annotation))
+    return out
+
+
+def _domain(name, default, ann):
+    if name.startswith("_"):
+        return None
+    if "bool" in ann or isinstance(default, bool) or name in BOOL_PARAMS:
+        return "bool"
+    if (("int" in ann and "Union" not in ann) or (isinstance(default, int)) or name in INT_PARAMS) and "TypeEngine" not in ann:
+        return "int"
+    if (("str" in ann and "TypeEngine" not in ann and "Clause" not in ann and "Callable" not in ann) or name in STR_PARAMS):
+        return "str"
+    return None
+
+
+def type_catalogue():
+    """[(type name, required args, {param: domain kind}, [params not varied])] — mechanical: every TypeEngine subclass
+    exported by sqlalchemy.types and the dialect packages whose cache key has at least one parameter"""
+    global _TCAT
+    if _TCAT is not None:
+        return _TCAT
+    import importlib
+    from sqlalchemy import types as sqltypes, util
+    from sqlalchemy.types import TypeEngine
+    seen, out = {}, []
+    for pkg in TYPE_PACKAGES:
+        mod = sqltypes if not pkg else importlib.import_module("sqlalchemy.dialects." + pkg)
+        for n in sorted(getattr(mod, "__all__", None) or [x for x in dir(mod) if not x.startswith("_")]):
+            c = getattr(mod, n, None)
+            name = (pkg + "." if pkg else "") + n
+            if not (isinstance(c, type) and issubclass(c, TypeEngine)) or c in seen or name in NOT_TYPES:
+                continue
+            seen[c] = name
+            info = _param_info(c)
+            doms, skipped = {}, []
+            for pn in sorted(util.get_cls_kwargs(c)):
+                dflt, ann = info.get(pn, (None, ""))
+                k = _domain(pn, dflt, ann)
+                if k is None:
+                    skipped.append(pn)
+                else:
+                    doms[pn] = k
+            if doms or skipped:
+                out.append((name, REQUIRED_ARGS.get(name, []), doms, skipped))
+    _TCAT = out
+    return out
+
+
+def _tdesc(name, req, kw):
+    req = list(req)
+    if req and isinstance(req[-1], dict):
+        kw = dict(req.pop(), **kw)
+    return [name] + req + ([kw] if kw else [])
+
+
+def type_variants(tier):
+    """[(family id, type descriptor)]: per type, per context (defaults / all other parameters truthy), per parameter,
+    every value of its domain; a family = the variants of one (type, context, parameter) — they differ in one argument"""
+    out, seen = [], set()
+    for name, req, doms, _ in type_catalogue():
+        for ctx_name in ("defaults", "truthy"):
+            for pn, kind in doms.items():
+                others = {} if ctx_name == "defaults" else {q: TRUTHY[k2] for q, k2 in doms.items() if q != pn}
+                if ctx_name == "truthy" and not others:
+                    continue
+                fam = "%s/%s/%s" % (name, ctx_name, pn)
+                for v in DOMAINS[kind]:
+                    d = _tdesc(name, req, dict(others, **{pn: v}))
+                    try:
+                        with warnings.catch_warnings():
+                            warnings.simplefilter("ignore")
+                            C.T(d)
+                    except Exception:  # noqa: BLE001  (rejected by the constructor: not well-formed)
+                        continue
+                    out.append((fam, d))
+    return out
+
+
+NUM_IN, STR_IN = ["litc", "3.14159"], ["litc", "'2020-01-02 03:04:05.678901'"]
+TYPE_SITES = {
+    "cast": lambda t: {"k": "select", "cols": [["label", ["cast", NUM_IN, t], "v"]]},
+    "tc_num": lambda t: {"k": "select", "cols": [["label", ["tc", NUM_IN, t], "v"]]},
+    "tc_str": lambda t: {"k": "select", "cols": [["label", ["tc", STR_IN, t], "v"]]},
+    "bind": lambda t: {"k": "select", "cols": [["label", ["bp", "p", 3.14159, {"type": t}], "v"]]},
+    "col": lambda t: {"k": "select", "cols": [["col", "adhoc", t]]},
+    "lit": lambda t: {"k": "select", "cols": [["label", ["lit", 5, t], "v"]]},
+}
+QUICK_SITES = ("cast", "tc_num", "tc_str", "bind")
+EXEC_SITES = ("cast", "tc_num", "tc_str", "bind")
+
+
+def type_statements(tier):
+    """[(family id incl. site, statement descriptor)]"""
+    sites = QUICK_SITES if tier == "quick" else tuple(TYPE_SITES)
+    return [("%s@%s" % (fam, sn), TYPE_SITES[sn](t)) for fam, t in type_variants(tier) for sn in sites]
 
 
 def call_args(desc):
@@ -237,6 +381,9 @@ def _phase1(shard, nshards, tier, seed):
         if i % nshards == shard:
             for m in C._mut(d):
                 add(m, 1)
+    for i, (fam, d) in enumerate(type_statements(tier)):
+        if i % nshards == shard:
+            add(d, 2)
     return out, rejected, len(base), len(vsrc)
 
 
@@ -296,6 +443,94 @@ def _phase2(shard, nshards, tier, seed):
                 _fail(out, "cached_vs_fresh", dn, seq, len(seq) - 1, df, cv, fv, dict(cache_state=hit, lru=20))
     out["sql"] = list(out["sql"])
     out["cov"] = {k: sorted(v) for k, v in out["cov"].items()}
+    return out
+
+
+# ------------------------------------------------------------------------------------------------ K3: execution on SQLite
+_ENGINES = None
+
+
+def _engines():
+    """(engine with the default compiled cache, engine with the cache disabled), both in-memory pysqlite"""
+    global _ENGINES
+    if _ENGINES is None:
+        from sqlalchemy import create_engine
+        _ENGINES = (create_engine("sqlite://"), create_engine("sqlite://", query_cache_size=0))
+    return _ENGINES
+
+
+def _val(v):
+    return "%s:%r" % (type(v).__name__, v)
+
+
+def exec_sequence(descs, stmts=None):
+    """execute the statements in order on one connection of each engine (the cached engine's cache is emptied first);
+    returns per step (observation with the cache, observation without) — observation = SQL text and parameters handed
+    to cursor.execute, and the fetched rows as (Python type, repr) per value, or the exception type"""
+    from sqlalchemy import event
+    stmts = stmts or [C.build(d) for d in descs]
+    res = []
+    for eng in _engines():
+        eng.clear_compiled_cache()
+        log = []
+
+        def _capture(conn, cursor, statement, parameters, context, executemany, log=log):
+            log.append((statement, repr(parameters)))
+        event.listen(eng, "before_cursor_execute", _capture)
+        out = []
+        try:
+            with eng.connect() as conn:
+                for s in stmts:
+                    del log[:]
+                    obs = {}
+                    try:
+                        with warnings.catch_warnings():
+                            warnings.simplefilter("ignore")
+                            rows = conn.execute(s).all()
+                        obs["rows"] = [[_val(v) for v in r] for r in rows]
+                    except Exception as e:  # noqa: BLE001
+                        obs["rows"] = ["EXC", type(e).__name__]
+                        try:
+                            conn.rollback()
+                        except Exception:  # noqa: BLE001
+                            pass
+                    obs["sql"] = [x[0] for x in log]
+                    obs["sent"] = [x[1] for x in log]
+                    out.append(obs)
+        finally:
+            event.remove(eng, "before_cursor_execute", _capture)
+        res.append(out)
+    return list(zip(res[0], res[1]))
+
+
+def _phase3(shard, nshards, tier, seed):
+    """K3 over the near-collision families of scope (2): forward and backward"""
+    out = dict(evals=0, failures=[], families=0, outcomes=set(), raised=0, samples=[])
+    fams = {}
+    for fam, t in type_variants(tier):
+        fams.setdefault(fam, []).append(t)
+    for n, fam in enumerate(sorted(fams)):
+        if n % nshards != shard:
+            continue
+        for sn in EXEC_SITES:
+            descs = [TYPE_SITES[sn](t) for t in fams[fam]]
+            out["families"] += 1
+            for order in (descs, descs[::-1]):
+                try:
+                    stmts = [C.build(d) for d in order]
+                except Exception:  # noqa: BLE001
+                    continue
+                for step, (with_cache, without) in enumerate(exec_sequence(order, stmts)):
+                    out["evals"] += 1
+                    out["raised"] += without["rows"][:1] == ["EXC"]
+                    out["outcomes"].add(hashlib.md5(repr((without["sql"], without["rows"])).encode()).digest()[:8])
+                    df = [k for k in ("sql", "sent", "rows") if with_cache[k] != without[k]]
+                    if df:
+                        out["failures"].append(dict(function="exec_cached_vs_uncached.%s:sqlite+pysqlite" % df[0], input=dict(dialect="sqlite+pysqlite", sequence=order[:step + 1], step=step),
+                                                    differing_clauses=df, family=fam + "@" + sn, expected={k: without[k] for k in df}, actual={k: with_cache[k] for k in df}))
+                    elif len(out["samples"]) < 1 and without["rows"][:1] != ["EXC"] and step == 1:
+                        out["samples"].append(dict(family=fam + "@" + sn, stmt=order[step], sql=without["sql"], rows=without["rows"]))
+    out["outcomes"] = list(out["outcomes"])
     return out
 
 
@@ -374,13 +609,15 @@ def run(run, tier, seed, args):
     p1 = C.shard_run(_phase1, 32, (tier, seed))
     seen, by_digest, nokey = set(), {}, []
     rejected = nvar = 0
+    ntype = 0
     for lst, rej, nbase, nvsrc in p1:
         rejected += rej
         for j, dg, origin in lst:
             if j in seen:
                 continue
             seen.add(j)
-            nvar += origin
+            nvar += origin == 1
+            ntype += origin == 2
             if dg is None:
                 nokey.append([json.loads(j)])
             else:
@@ -389,7 +626,12 @@ def run(run, tier, seed, args):
     for g in _GROUPS:
         g.sort(key=C.dj)
     res = C.shard_run(_phase2, 64, (tier, seed))
+    res3 = C.shard_run(_phase3, 32, (tier, seed))
     sql, failures, cov, samples = set(), [], {}, []
+    exec_outcomes = set()
+    for r in res3:
+        failures += r["failures"]
+        exec_outcomes.update(r["outcomes"])
     tot = dict(evals=0, hits=0, misses=0, pairs=0, k2_pairs=0, nkeys=0, groups_multi=0, split=0)
     largest = 0
     for r in res:
@@ -405,26 +647,36 @@ def run(run, tier, seed, args):
     varied = sorted(k for k, v in cov.items() if len(v) > 1)
     constant = sorted(k for k, v in cov.items() if len(v) <= 1)
     run.coverage.update(
-        evaluations=tot["evals"],
+        evaluations=tot["evals"] + sum(r["evals"] for r in res3),
         distinct_nontrivial=tot["nkeys"] - len(nokey),
         rule="statements = corpus descriptors + single-site near-collision variants; each is compiled through _compile_w_cache in every cache state "
              "(disabled [every third], cold, warm with itself, warm with each equal-key sibling in both orders, permutations of 3 siblings, a 20-entry LRU "
              "shared by many statements with evictions) and compared clause by clause with the uncached compilation; distinct_nontrivial = number of "
-             "distinct cache keys among the statements (groups by real CacheKey equality, counted); distinct SQL strings are in coverage.distinct_sql",
+             "distinct cache keys among the statements (groups by real CacheKey equality, counted); distinct SQL strings are in coverage.distinct_sql; "
+             "K3: every near-collision family of datatype-argument variants (one type, one context, one parameter, all values of its domain) x site is executed on "
+             "in-memory SQLite forward and backward through a cached and an uncached engine, step by step equal (SQL, parameters sent, typed rows)",
         samples=samples[:3] or [dict(note="no equal-key group sampled")],
         exhaustive=True,
-        scope="statement corpus depth %d without DDL (%d descriptors) + %d near-collision variants (every buildable single-site mutation of %s) = %d statements, "
+        scope="statement corpus depth %d without DDL (%d descriptors) + %d near-collision variants (every buildable single-site mutation of %s) + %d datatype-argument "
+              "statements (%d TypeEngine subclasses found mechanically x key parameters with an int/str/bool domain x {None, falsy, truthy values} x 2 contexts = %d type "
+              "variants in %d families, x sites %s) = %d statements, "
               "%d distinct cache keys, %d without a key; %d equal-key groups with >= 2 members (largest %d; all ordered pairs among the first 6 members, further "
-              "members against the first, up to 30); dialects %s; parameter sets {compiled-in values, override of every named bind}"
+              "members against the first, up to 30); dialects %s; parameter sets {compiled-in values, override of every named bind}; K3: %d (family, site) sequences "
+              "executed forward and backward on in-memory SQLite with and without the compiled cache"
               % (2 if tier == "quick" else 3, p1[0][2], nvar, "the depth-1 corpus and the representative clause statements" if tier == "quick" else "the depth-2 corpus",
-                 len(seen), tot["nkeys"] - len(nokey), len(nokey), tot["groups_multi"], largest, list(DIALECTS)),
+                 ntype, len(type_catalogue()), len(type_variants(tier)), len({f for f, _ in type_variants(tier)}), list(QUICK_SITES if tier == "quick" else TYPE_SITES),
+                 len(seen), tot["nkeys"] - len(nokey), len(nokey), tot["groups_multi"], largest, list(DIALECTS), sum(r["families"] for r in res3)),
+        type_args=dict(types=len(type_catalogue()), domains=DOMAINS, params_varied={n: sorted(d) for n, _, d, _ in type_catalogue()},
+                       params_not_varied={n: sk for n, _, _, sk in type_catalogue() if sk}),
+        exec_sqlite=dict(steps_executed=sum(r["evals"] for r in res3), sequences=sum(r["families"] for r in res3) * 2, distinct_outcomes=len(exec_outcomes),
+                         steps_raising_on_both_sides=sum(r["raised"] for r in res3), sample=[x for r in res3 for x in r["samples"]][:2]),
         distinct_sql=len(sql), cache_hits=tot["hits"], cache_misses_or_disabled=tot["misses"], sibling_sequences=tot["pairs"], equal_key_pairs_compared=tot["k2_pairs"],
         rejected_by_constructors=rejected, digest_groups_split_by_real_key=tot["split"],
         traverse_internals=dict(class_attributes_reached=len(cov), varied_in_scope=len(varied), constant_in_scope=len(constant),
                                 classes=sorted({k.split(".")[0] for k in cov}), constant_attributes=constant[:150]))
     run.assumptions += [
         "observation = SQL text, construct_params, positional tuple, bind types, result-map keys and the (statement, parameters) assembled by the real "
-        "_init_compiled on a stub connection; result rows (the backend) are outside",
+        "_init_compiled on a stub connection; result rows are observed only in K3 (table-free datatype statements on in-memory SQLite), other backends are outside",
         "equality is modulo a consistent renaming of bind-parameter names (unique binds are keyed by position, not by name, by design)",
         "near-collision variants are the mechanical single-site mutations of rtc/corpus._mut; attributes listed under traverse_internals.constant_attributes "
         "never took two values in this scope, so an omission of one of those from a cache key would not be seen",
@@ -436,8 +688,8 @@ def run(run, tier, seed, args):
 
 def replay(data):
     inp = data["input"]
-    d = C.get_dialect(inp["dialect"], fresh=True)
     fn = data.get("function", "")
+    d = C.get_dialect(inp["dialect"], fresh=True) if not fn.startswith("exec_") else None
     descs = inp["sequence"]
     if fn.startswith("equal_key_different_sql"):
         a, b = [C.build(x) for x in descs[:2]]
@@ -448,6 +700,15 @@ def replay(data):
             print("REPLAY-FAILS C02 equal cache key, different %s on %s:\n  %r\n  %r" % (df, inp["dialect"], fa.get("string"), fb.get("string")))
             return 1
         print("REPLAY-PASSES C02 keys equal=%s, fresh views differ on %s" % (ka is not None and kb is not None and ka.key == kb.key, df))
+        return 0
+    if fn.startswith("exec_cached_vs_uncached"):
+        for st, (with_cache, without) in enumerate(exec_sequence(descs)):
+            df = [k for k in ("sql", "sent", "rows") if with_cache[k] != without[k]]
+            if df:
+                print("REPLAY-FAILS C02 step %d of the sequence executed on in-memory SQLite differs with the compiled cache on %s:\n  cached:   %r\n  uncached: %r"
+                      % (st, df, {k: with_cache[k] for k in df}, {k: without[k] for k in df}))
+                return 1
+        print("REPLAY-PASSES C02 %d-step sequence executed on in-memory SQLite: cached == uncached at every step" % len(descs))
         return 0
     bad = [(st, df, cv, fv, hit) for st, df, cv, fv, hit in run_sequence(d, descs, cache_size=20 if len(descs) > 3 else 100) if df]
     if bad:
